@@ -82,6 +82,12 @@ M = {
  "c08_read_origin_late": ("rustzx-core/src/zx/machine/mod.rs", ".clocks_first_pixel(14336)\n            .clocks_ula_read_shift(2)", ".clocks_first_pixel(14336)\n            .clocks_ula_read_shift(1000)"),
  "c08_scr_no_refresh": ("rustzx-core/src/emulator/screenshot/scr.rs", "    // Update screen\n    emulator.controller.refresh_memory_dependent_devices();", "    // Update screen"),
  "c08_fastload_memory_only": ("rustzx-core/src/emulator/fastload/tap.rs", "emulator.controller.write_internal(dest, current_byte);", "emulator.controller.memory.write(dest, current_byte);"),
+ # ---- C09
+ "c09_origin_line": ("rustzx-core/src/zx/video/border.rs", "            - 8 * BORDER_ROWS * specs.clocks_line", "            - (8 * BORDER_ROWS - 1) * specs.clocks_line"),
+ "c09_pixels_per_clock": ("rustzx-core/src/zx/constants.rs", "pub(crate) const PIXELS_PER_CLOCK: usize = 2;", "pub(crate) const PIXELS_PER_CLOCK: usize = 1;"),
+ "c09_color_mask": ("rustzx-core/src/zx/controller.rs", "self.set_border_color(self.frame_clocks, ZXColor::from_bits(data & 0x07));", "self.set_border_color(self.frame_clocks, ZXColor::from_bits(data & 0x03));"),
+ "c09_stale_clock": ("rustzx-core/src/zx/controller.rs", "self.set_border_color(self.frame_clocks, ZXColor::from_bits(data & 0x07));", "self.set_border_color(self.frame_clocks.saturating_sub(40), ZXColor::from_bits(data & 0x07));"),
+ "c09_origin_16t": ("rustzx-core/src/zx/video/border.rs", "            - BORDER_COLS * CLOCKS_PER_COL\n", "            - (BORDER_COLS + 4) * CLOCKS_PER_COL\n"),
 }
 
 def main():
